@@ -160,6 +160,7 @@ type SimNode struct {
 	evSeq   *int // shared global sequence
 	msgs    []msgRec
 	merged  []msgRec
+	mergedJoin []bool // parallel to merged: the join flag of the exchange
 	conflicts []string
 	logs    []string
 	logCap  int
@@ -329,6 +330,7 @@ func (n *SimNode) LocalState(join bool) []byte {
 func (n *SimNode) MergeRemoteState(buf []byte, join bool) {
 	n.mu.Lock()
 	n.merged = append(n.merged, msgRec{n.sim.Now(), append([]byte(nil), buf...)})
+	n.mergedJoin = append(n.mergedJoin, join)
 	n.mu.Unlock()
 }
 
